@@ -7,6 +7,9 @@ CHECKS = {
  "C01": ("bounded-exhaustive enumeration of program families (operators x operand forms, statement trees by node count, scopes, destructuring, classes, generators x resume scripts, construct pairs) executed on the real engine, compared with committed V8-derived golden traces and across entry modes",
          "Every program of eight finite program families is executed in a fresh context (plus, for a hash-selected subset, as UTF-16 input, through hand-polled evaluate_async_with_budget(1) and as a host call of a wrapped function) and its trace must equal the committed golden trace; the family is enumerated completely, nothing is sampled.",
          "Trusts V8 11.3 as stand-in for the specification on the families (deviations go to oracle/overrides.jsonl), the shared rendering prelude, and C20 (determinism).", "DESIGN.md §3 C01"),
+ "C03": ("exhaustive exploration of the abstract state graph (pc x environment stack x binding-reference depth x argument depth, with exception edges) of every code block compiled for the corpora, plus structural operand/target checks; the per-opcode effect model is bound to the VM by a step-by-step conformance replay (cfg boa_verif observers)",
+         "Every code block that the engine compiles while running the corpus programs (including nested function constants and code created by eval) is decoded and checked by rules R1-R6: operands inside their tables and of the right kind, jump/handler targets on instruction boundaries, and — over ALL control-flow paths including exception edges — non-negative depths, agreement at merges, and handler environment counts within the open environments.",
+         "The effect table is the model of the VM; every step the real VM takes on the corpus must be a member of the abstract state set of its pc, which is checked on every run.", "DESIGN.md §3 C03"),
  "C04": ("bounded-exhaustive enumeration of program families x subsets of the compile-time shortcut switches (cfg boa_verif hooks), differential on the real engine",
          "Every program of the place/scope/ctl/pair (thorough: + op/ctlgen/destr) families is executed with all shortcuts on and with the listed subsets of {force-escape, no const cache, no loop hoist, no fused branch} (thorough: all 16 subsets on the place family); all traces must be equal.",
          "Trusts that the hooks only force existing conservative paths (cross-checked against the C01 golden tables, which are produced with everything on).", "DESIGN.md §3 C04"),
